@@ -129,6 +129,9 @@ func runC17(p *Prog, l *Ledger) {
 			if freshBase(a) {
 				continue
 			}
+			if c17ConstructionOption(p, f, a) {
+				continue
+			}
 			nacc++
 			ca := &c17Access{a: a, fn: f, held: locks.Held(a.Instr), baseAP: AccessPath(a.Base)}
 			ca.guard = c17Guard(ca)
@@ -626,4 +629,137 @@ func c17PointerReceivers(p *Prog, l *Ledger, inScope func(*types.Named) bool) {
 	}
 	sort.Strings(bad)
 	l.Check(len(bad) == 0 && cnt > 0, "O7", "module/pointer-receivers", "", fmt.Sprintf("%d methods of mutex-holding types, all with pointer receivers", cnt), "a method copies a lock", bad...)
+}
+
+// c17ConstructionOption: the access is made by a functional option - a function literal that its enclosing function
+// only returns as a named function type T - on its own parameter, and every call of a value of type T in the module
+// passes an object its caller has just built (allocated there, or returned by a constructor that allocates it): the
+// option runs while nobody else can reach the object.
+func c17ConstructionOption(p *Prog, f *ssa.Function, a FieldAccess) bool {
+	par := f.Parent()
+	if par == nil {
+		return false
+	}
+	prm, ok := AccessPath(a.Base).Root.(*ssa.Parameter)
+	if !ok || prm.Parent() != f {
+		return false
+	}
+	idx := -1
+	for i, q := range f.Params {
+		if q == prm {
+			idx = i
+		}
+	}
+	if idx < 0 || len(f.FreeVars) > 0 && false {
+		return false
+	}
+	key := "opt:" + p.Key(f)
+	if p.optCache == nil {
+		p.optCache = map[string]bool{}
+	}
+	if v, ok := p.optCache[key]; ok {
+		return v
+	}
+	p.optCache[key] = false
+	// the literal is only returned, as a named function type
+	var T *types.Named
+	bad := false
+	allInstrs(par, func(ins ssa.Instruction) {
+		mc, ok := ins.(*ssa.MakeClosure)
+		if !ok || mc.Fn != ssa.Value(f) {
+			return
+		}
+		var follow func(v ssa.Value, d int)
+		follow = func(v ssa.Value, d int) {
+			refs := v.Referrers()
+			if refs == nil || d > 3 {
+				bad = true
+				return
+			}
+			for _, r := range *refs {
+				switch x := r.(type) {
+				case *ssa.ChangeType:
+					if nt, ok := x.Type().(*types.Named); ok {
+						if T != nil && T != nt {
+							bad = true
+						}
+						T = nt
+						follow(x, d+1)
+					} else {
+						bad = true
+					}
+				case *ssa.Return:
+					if nt, ok := v.Type().(*types.Named); ok {
+						if T != nil && T != nt {
+							bad = true
+						}
+						T = nt
+					} else if par.Signature.Results().Len() == 1 {
+						if nt, ok := par.Signature.Results().At(0).Type().(*types.Named); ok {
+							T = nt
+						} else {
+							bad = true
+						}
+					}
+				case *ssa.DebugRef:
+				default:
+					bad = true
+				}
+			}
+		}
+		follow(mc, 0)
+	})
+	if bad || T == nil {
+		return false
+	}
+	if _, isSig := T.Underlying().(*types.Signature); !isSig {
+		return false
+	}
+	// every call through a value of type T passes a just-built object
+	ncalls := 0
+	okAll := true
+	for _, g := range p.Funcs {
+		if !okAll {
+			break
+		}
+		allInstrs(g, func(ins ssa.Instruction) {
+			call, ok := ins.(ssa.CallInstruction)
+			if !ok {
+				return
+			}
+			cc := call.Common()
+			if cc.IsInvoke() || cc.StaticCallee() != nil {
+				return
+			}
+			nt, ok := cc.Value.Type().(*types.Named)
+			if !ok || nt.Obj() != T.Obj() {
+				return
+			}
+			if _, isGo := ins.(*ssa.Go); isGo {
+				okAll = false
+				return
+			}
+			ncalls++
+			if idx >= len(cc.Args) {
+				okAll = false
+				return
+			}
+			root := AccessPath(cc.Args[idx]).Root
+			if ex, ok := root.(*ssa.Extract); ok {
+				root = ex.Tuple
+			}
+			switch x := root.(type) {
+			case *ssa.Alloc:
+			case *ssa.Call:
+				if !p.returnsFresh(x.Call.StaticCallee(), 2) {
+					okAll = false
+				}
+			default:
+				okAll = false
+			}
+		})
+	}
+	res := okAll && ncalls > 0
+	p.optCache[key] = res
+	return res
 }
